@@ -10,7 +10,7 @@ CONSTANTS
   MaxPay = 1
   Cap = 2
   MaxNest = 1
-  Ops = {"CtxDeregister", "DropRef", "Dispatch", "CtxQuit", "SrcRegister", "SrcDeregister", "FdReady", "FdDrain", "FdReopen", "TmrFire", "ModPause", "ModResume", "ModStop", "Tell"}
+  Ops = {"CtxDeregister", "DropRef", "Dispatch", "CtxQuit", "SrcRegister", "SrcDeregister", "FdReady", "FdHup", "FdDrain", "FdReopen", "TmrFire", "ModPause", "ModResume", "ModStop", "Tell"}
   CbOps = {"SetErrno", "FdDrain", "ModStop", "SrcDeregister"}
   EvalVals = {TRUE}
   Prios = {"N"}
@@ -27,8 +27,12 @@ CONSTANTS
   TickVals = {}
   Targets = {"A"}
   AutoVals = {TRUE}
+  SubOneshot = {FALSE}
   Senders = {"A"}
   QuitCodes = {1}
+  ForeignOps = {}
+  MaxRefs = 1
+  MaxHeld = 0
   Setup = "loop2"
 INIT Init
 NEXT Next
